@@ -12,5 +12,7 @@ import sys; sys.path.insert(0, 'harness')
 import common
 common.write_makefile()
 PY
-timeout 3000 make -f Makefile.coq -j12 > build/make.log 2>&1 || { tail -40 build/make.log; exit 1; }
+# -k: a file that does not compile must not prevent the others from being built; every check re-runs `make` on its own
+# targets and reports what no longer checks
+timeout 3000 make -f Makefile.coq -j12 -k > build/make.log 2>&1 || { echo "setup: some files did not compile (the checks that need them will report it):"; grep -E "^File|Error" build/make.log | head -20; }
 echo "setup ok: $(find coq build/Gen -name '*.vo' | wc -l) files compiled"
